@@ -1,7 +1,10 @@
 use std::sync::atomic::{AtomicBool, AtomicU64, Ordering};
 use std::sync::{Arc, Weak};
 use std::thread::{self, JoinHandle};
+#[cfg(not(feoxdb_verif))]
 use std::time::{Duration, Instant};
+#[cfg(feoxdb_verif)]
+use {crate::verif::time::Instant, std::time::Duration};
 
 use rand::Rng;
 
@@ -230,6 +233,10 @@ fn run_sweeper_loop(
                     .as_nanos() as u64,
                 Ordering::Relaxed,
             );
+            #[cfg(feoxdb_verif)]
+            if let Some(now) = crate::verif::now_nanos() {
+                stats.last_run.store(now, Ordering::Relaxed);
+            }
         }
 
         // Check shutdown flag again
@@ -244,6 +251,8 @@ fn sample_and_expire_batch(store: &Arc<FeoxStore>, config: &TtlConfig) -> (u64, 
     let now = store.get_timestamp_pub();
     let mut expired = 0;
     let mut rng = rand::rng();
+    #[cfg(feoxdb_verif)]
+    let mut rng = crate::verif::rng("ttl_sweep.sample");
 
     // Get access to the hash table
     let hash_table = store.get_hash_table();
